@@ -10,6 +10,10 @@ mod unix {
         if cfg!(miri) {
             return None;
         }
+        #[cfg(feature = "verif")]
+        if let Some(cols) = crate::verif::cols() {
+            return cols;
+        }
         unsafe {
             let mut winsize = std::mem::zeroed::<libc::winsize>();
             if libc::ioctl(0, libc::TIOCGWINSZ, &mut winsize) < 0 {
